@@ -100,6 +100,13 @@ ReturnsOwnPlan == \A t \in Threads : \A i \in 1..Len(rets[t]) : rets[t][i] = Pro
 SizeBoundRestored == AllDone => Len(cache) <= (IF MaxSize = 0 THEN 0 ELSE MaxSize)
 NoDuplicateKeys == \A i, j \in 1..Len(cache) : i # j => cache[i].key # cache[j].key
 Terminates == <>AllDone
+\* why ReturnsOwnPlan holds (its inductive strengthening): whatever sits in the cache was computed by some call from the
+\* arguments filed under that key, and a thread past its lookup holds the plan of its own call
+CacheFromCalls == \A i \in 1..Len(cache) : \E t \in Threads : \E j \in 1..Len(Prog[t]) :
+                      Prog[t][j].key = cache[i].key /\ Prog[t][j].plan = cache[i].plan
+PlanInHand == \A t \in Threads : pc[t] \in {"move", "len", "pop", "ret"} => res[t] = Call(t).plan
+\* the cache never grows past MaxSize + (number of threads between their insert and their trim)
+TransientBound == Len(cache) <= MaxSize + Cardinality({t \in Threads : pc[t] \in {"len", "pop"}})
 
 \* larger instances are explored without the history variable (it only records the path)
 NoHistory == <<cache, pc, ci, res, rets, err>>
